@@ -1057,6 +1057,9 @@ class Model:
     def sc_to_unit(self, interp, args, kwargs, node):
         a = _bind(['x', 'unit', 'copy'], args, kwargs, {'copy': True})
         x = a['x']
+        if isinstance(x, Unit | str):
+            # scipp.to_unit(unit, variable): the first argument must be a variable, scipp raises
+            raise RaiseSignal('TypeError', node, interp.where(node), ('to_unit(): the first argument is not a variable',))
         if not isinstance(x, SVar):
             x = self.lift(interp, x)
         return self._convert(interp, x, a['unit'], None, a['copy'], node, 'to_unit')
